@@ -54,11 +54,13 @@ Definition ratio_sampled (bits : N) (t : bytes) : bool :=
   end.
 
 (** *** samplers *)
-Inductive decision := Drop | RecordOnly | RecordAndSample.
+(* DOther k: the out-of-range SamplingDecision value 3 + k a custom sampler may answer *)
+Inductive decision := Drop | RecordOnly | RecordAndSample | DOther (k : N).
 
 Definition decision_eqb (a b : decision) : bool :=
   match a, b with
   | Drop, Drop | RecordOnly, RecordOnly | RecordAndSample, RecordAndSample => true
+  | DOther j, DOther k => j =? k
   | _, _ => false
   end.
 
@@ -151,7 +153,8 @@ Definition new_span (s : sampler) (g : bytes * bytes) (parent : spanctx) (newroo
             | _ => N.land (flags psc) 254            (* &^ FlagsSampled on a byte *)
             end in
   {| sc := {| tid := t; sid := snd g; flags := fl; tstate := rts r; remote := false |};
-     recording := negb (decision_eqb (dec r) Drop);
+     (* isRecording: Decision == RecordOnly || Decision == RecordAndSample (equality tests: an out-of-range answer does not record) *)
+     recording := match dec r with RecordOnly | RecordAndSample => true | _ => false end;
      asked_ids := fresh;
      sres := r |}.
 
